@@ -231,6 +231,10 @@ func (tree *MutableTree) Iterate(fn func(key []byte, value []byte) bool) (stoppe
 			return true, nil
 		}
 	}
+	// an iterator that stopped on a storage error is not a complete iteration
+	if err := itr.Error(); err != nil {
+		return false, err
+	}
 	return false, nil
 }
 
